@@ -263,6 +263,37 @@ def enumerate_staged_loop_rejoins() -> Iterator[Any]:
         yield ["seq", [a, ["fork", op, brs], E()]]
 
 
+# event names that are valid but that a typical run does not contain: blanks at the edges or inside, names that are
+# prefixes / concatenations of one another, characters that mean something to PlantUML, JSON, glob or the project's own
+# markers without being one of them (the exact markers |||START|||, |||END|||, |||DUMMY|||, DUMMY_BREAK and names
+# containing LOOP are the project's reserved names and stay out, and so does "tau": infer_or_gate_from_node recognises
+# the miner's silent leaf by `str(node) == "tau"` and the project's own unit tests build silent leaves as
+# ProcessTree(label="tau") — an event of that name is taken for one), digits only, non-ASCII, one character, long
+UNUSUAL_NAMES = ["B ", " B", "a b", "|||AUDIT|||", "|||", "||||", "|||start|||", "START", "END", "0042", "x;y", "q:r",
+                 "[z]", "50%", "n\u00e4me", "'quoted'", '"dq"', "Tau", "A", "AA", "AB", "AAA", "BA", "-", "*", "?",
+                 "fork", "end fork", "repeat", "case (\"\")", "break", "detach", "x" * 60, "a\\b", "{", "}", "#red", "@startuml"]
+
+
+def unusual_renaming(r: Any, names: list[str]) -> dict[str, str]:
+    """an injective map from a definition's letter names to unusual names (some names stay as they are)"""
+    pool = [n for n in UNUSUAL_NAMES]
+    r.shuffle(pool)
+    m: dict[str, str] = {}
+    used: set[str] = set()
+    for n in names:
+        if pool and r.random() < 0.7:
+            x = pool.pop()
+            m[n] = x
+            used.add(x)
+        else:
+            m[n] = n
+    # injective: a letter that stays must not collide with an unusual name handed out ("A", "AA", …)
+    for n in names:
+        if m[n] == n and n in used:
+            m[n] = n + "_"
+    return m
+
+
 def rename_def(d: Any, f: Any) -> Any:
     if d[0] == "ev":
         return ["ev", f(d[1])]
@@ -486,7 +517,7 @@ def loops_of(graph, path=""):
         return (path + "/" + n.event_type) if isinstance(n, LoopEvent) else n.event_type
     def kind(n):
         if isinstance(n, LoopEvent): return "loop"
-        return "dummy" if any(d in n.event_type for d in DUM) else "event"
+        return "dummy" if n.event_type in DUM else "event"     # exact: a user's event may be named |||AUDIT|||
     nodes = list(graph.nodes)
     # distinct dummy nodes may carry one name (a body can hold two |||END||| nodes): number the repeats, the graph
     # the Lean checkers see must have one vertex per node of the returned graph
